@@ -105,17 +105,25 @@ func checkC02(w *World, r *Report) {
 
 	// R02.3
 	conn := w.Method("internal/client/upstream", "Upstreams", "Connect")
-	fn := w.SSAFunc(conn)
-	if fn == nil {
+	connFn := w.SSAFunc(conn)
+	if connFn == nil {
 		r.Undecided("R02.3", "method:(*upstream.Upstreams).Connect", "-", "anchor unresolved")
 		return
 	}
+	// the critical section may live in Connect itself or in a helper it calls
+	var fn *ssa.Function
 	var lock ssa.Instruction
-	for _, c := range callsIn(fn) {
-		if isMethod(sCallee(c), "sync", "Mutex", "Lock") {
-			lock = c
+	for _, g := range staticCone(connFn, 2) {
+		for _, c := range callsIn(g) {
+			if _, isDefer := c.(*ssa.Defer); isDefer {
+				continue
+			}
+			if isMethod(sCallee(c), "sync", "Mutex", "Lock") && lock == nil {
+				lock, fn = c, g
+			}
 		}
 	}
+	_ = fn
 	key := "method:(*client/upstream.Upstreams).Connect|critical-section"
 	if lock == nil {
 		r.Violate("R02.3", key, w.Pos(conn.Pos()), "Upstreams.Connect no longer takes the mutex (see C16 R16.3)")
@@ -599,58 +607,107 @@ func ruleSharedSessionClosers(w *World, r *Report, rule string) {
 			}
 			n++
 			key := fmt.Sprintf("close:Upstreams.%s@%s", fld.Name(), ssaFuncKey(fn))
-			name := ""
-			f0 := fn
-			for f0.Parent() != nil {
-				f0 = f0.Parent()
+			shutdown := w.Method("internal/client/upstream", "Upstreams", "Shutdown")
+			if onlyFromShutdown(w, fn, shutdown, 0) {
+				r.Hold(rule, key, w.Pos(c.Pos()), "closed on behalf of Shutdown only")
+				continue
 			}
-			if o := fnObj(f0); o != nil {
-				name = o.Name()
-			}
-			switch name {
-			case "Shutdown":
-				r.Hold(rule, key, w.Pos(c.Pos()), "closed by Shutdown")
-			case "creteSession":
-				// only when the multiplexer could not be set up
-				okc := false
-				for _, c2 := range callsIn(fn) {
-					call, isCall := c2.(*ssa.Call)
-					if !isCall {
-						continue
-					}
-					f := sCallee(c2)
-					if f == nil || f.Pkg() == nil || f.Pkg().Path() != "github.com/xtaci/smux" || f.Name() != "Client" {
-						continue
-					}
-					var errv ssa.Value
-					for _, ref := range *call.Referrers() {
-						if ex, ok := ref.(*ssa.Extract); ok && ex.Index == 1 {
-							errv = ex
-						}
-					}
-					if errv != nil && dominatedByCond(fn, c, func(v ssa.Value) bool {
-						x, _, ok := nilTest(v)
-						if !ok {
-							return false
-						}
-						for _, root := range provenance(x, provOpts{}) {
-							if root == errv {
-								return true
-							}
-						}
-						return x == errv
-					}, true) {
-						// nil test "!= nil" true ; dominatedByCond with want=true on a NEQ test means err != nil
-						okc = true
+			// session set-up failure: in the function that creates the multiplexer, on its error edge
+			okc := false
+			for _, c2 := range callsIn(fn) {
+				call, isCall := c2.(*ssa.Call)
+				if !isCall {
+					continue
+				}
+				f := sCallee(c2)
+				if f == nil || f.Pkg() == nil || f.Pkg().Path() != "github.com/xtaci/smux" || f.Name() != "Client" {
+					continue
+				}
+				var errv ssa.Value
+				for _, ref := range *call.Referrers() {
+					if ex, ok := ref.(*ssa.Extract); ok && ex.Index == 1 {
+						errv = ex
 					}
 				}
-				r.Check(okc, rule, key, w.Pos(c.Pos()), "closed only when the multiplexer session could not be created", "the freshly opened physical connection is closed on a path other than a failed session set-up")
-			default:
-				r.Violate(rule, key, w.Pos(c.Pos()), "the physical connection shared by all logical connections is closed by "+ssaFuncKey(fn)+": a failure that concerns one logical connection (e.g. a refused channel) cuts every other transfer in flight")
+				if errv != nil && dominatedByErrNonNil(fn, c, errv) {
+					okc = true
+				}
 			}
+			if okc {
+				r.Hold(rule, key, w.Pos(c.Pos()), "closed only when the multiplexer session could not be created")
+				continue
+			}
+			r.Violate(rule, key, w.Pos(c.Pos()), "the physical connection shared by all logical connections is closed by "+ssaFuncKey(fn)+" (not on behalf of Shutdown, not on a failed session set-up): a failure that concerns one logical connection (e.g. a refused channel) cuts every other transfer in flight")
 		}
 	}
 	if n == 0 {
 		r.Undecided(rule, "close:Upstreams.*", "-", "no close of the shared connection found (Shutdown changed?)")
 	}
+}
+
+// onlyFromShutdown: fn is the Shutdown method, a closure inside it, or a
+// function all of whose call sites are (transitively) in such functions.
+func onlyFromShutdown(w *World, fn *ssa.Function, shutdown *types.Func, depth int) bool {
+	if fn == nil || depth > 3 {
+		return false
+	}
+	f0 := fn
+	for f0.Parent() != nil {
+		f0 = f0.Parent()
+	}
+	if fnObj(f0) == shutdown && shutdown != nil {
+		return true
+	}
+	obj := fnObj(fn)
+	if obj == nil {
+		return false
+	}
+	n := 0
+	for caller := range allModuleFuncs(w, w.SSA()) {
+		for _, c := range callsIn(caller) {
+			if sCallee(c) == obj && !c.Common().IsInvoke() {
+				n++
+				if !onlyFromShutdown(w, caller, shutdown, depth+1) {
+					return false
+				}
+			}
+		}
+	}
+	return n > 0
+}
+
+// dominatedByErrNonNil: instruction lies on the "err != nil" side of a nil test of errv.
+func dominatedByErrNonNil(fn *ssa.Function, in ssa.Instruction, errv ssa.Value) bool {
+	for _, b := range fn.Blocks {
+		if len(b.Instrs) == 0 {
+			continue
+		}
+		ifi, ok := b.Instrs[len(b.Instrs)-1].(*ssa.If)
+		if !ok {
+			continue
+		}
+		x, eqNil, ok := nilTest(ifi.Cond)
+		if !ok {
+			continue
+		}
+		same := x == errv
+		if !same {
+			for _, root := range provenance(x, provOpts{}) {
+				if root == errv {
+					same = true
+				}
+			}
+		}
+		if !same {
+			continue
+		}
+		succ := 0
+		if eqNil {
+			succ = 1
+		}
+		if edgeDominates(b, succ, in.Block()) {
+			return true
+		}
+	}
+	return false
 }
